@@ -22,7 +22,9 @@ impl ReplayProtection {
     }
 
     pub fn already_received(&self, sequence: u64) -> bool {
-        if sequence + NETCODE_REPLAY_BUFFER_SIZE as u64 <= self.most_recent_sequence {
+        // Written as a subtraction so that sequences close to u64::MAX cannot overflow
+        let window = NETCODE_REPLAY_BUFFER_SIZE as u64;
+        if self.most_recent_sequence >= window && sequence <= self.most_recent_sequence - window {
             return true;
         }
 
